@@ -201,7 +201,7 @@ def build(template_path, repo, variant="strict", inline=None):
                 res.lost.append(str(e))
             i += 1
             continue
-        if d.startswith("rlimit "):
+        if d.startswith("rlimit ") or d.startswith("smtopt "):
             # read by the driver (SMT resource limit of this unit)
             i += 1
             continue
